@@ -1,4 +1,5 @@
 import ScyllaVerif.Model.Keyspace
+import ScyllaVerif.Proofs.Keyspace
 /-!
 # C20 — after USE keyspace succeeds, all requests run on connections in that keyspace
 
@@ -10,6 +11,7 @@ Theorems about `Model/Keyspace.lean`.
 §C the pool refiller: invariants over `step` lifted to every event sequence (`run`).
 §D the cluster worker.
 -/
+set_option linter.unusedSectionVars false
 namespace ScyllaVerif.Props.C20
 open ScyllaVerif.Keyspace
 
@@ -133,5 +135,281 @@ theorem response_not_setKeyspace (v : VerifiedName) (r : WireReply) (h : verifyU
 
 example : verifyUseResult ⟨"Ks1", false⟩ (.setKeyspace "ks1") = .ok () := by rfl
 example : verifyUseResult ⟨"Ks1", false⟩ (.setKeyspace "ks2") = .error .mismatch := by rfl
+
+/-! ## B. `use_keyspace_result` -/
+
+/-- Ok iff at least one Ok and nothing but broken-connection errors besides. -/
+theorem use_keyspace_result_ok (rs : List UseRes) :
+    useKeyspaceResult rs = .ok ↔ (∀ r ∈ rs, r = .ok () ∨ r = .error .broken) ∧ .ok () ∈ rs :=
+  useKeyspaceResult_ok_iff rs
+
+/-- A broken-connection error iff all results are broken-connection errors. -/
+theorem use_keyspace_result_broken (rs : List UseRes) :
+    useKeyspaceResult rs = .err .broken ↔ (∀ r ∈ rs, r = .error .broken) ∧ rs ≠ [] :=
+  useKeyspaceResult_broken_iff rs
+
+/-- Any other error among the results is returned (the first one): never swallowed. -/
+theorem use_keyspace_result_error (rs : List UseRes) (e : UseErr) (he : e ≠ .broken) (hm : .error e ∈ rs) :
+    ∃ e', e' ≠ .broken ∧ useKeyspaceResult rs = .err e' := by
+  cases h : useKeyspaceResult rs with
+  | ok =>
+    have := ((useKeyspaceResult_ok_iff rs).mp h).1 _ hm
+    rcases this with h1 | h1
+    · cases h1
+    · simp only [Except.error.injEq] at h1; exact absurd h1 he
+  | panic =>
+    unfold useKeyspaceResult at h
+    cases hl : ukrLoop rs false none with
+    | error e' => simp [hl] at h
+    | ok x =>
+      have := (ukrLoop_ok hl).1 _ hm
+      rcases this with h1 | h1
+      · cases h1
+      · simp only [Except.error.injEq] at h1; exact absurd h1 he
+  | err e' =>
+    refine ⟨e', ?_, rfl⟩
+    intro hb; subst hb
+    have := ((useKeyspaceResult_broken_iff rs).mp h).1 _ hm
+    simp only [Except.error.injEq] at this; exact absurd this he
+
+example : useKeyspaceResult [.ok (), .error .broken] = .ok := by decide
+example : useKeyspaceResult [.error .broken, .error .broken] = .err .broken := by decide
+example : useKeyspaceResult [.ok (), .error .dbError, .error .mismatch] = .err .dbError := by decide
+example : useKeyspaceResult [] = .panic := by decide
+
+/-! ## C. The pool refiller: every interleaving of use-keyspace requests, connection establishment,
+keyspace setup of new connections, loss, refill -/
+
+variable {K : Type} [DecidableEq K]
+
+/-- Every state reachable from an initial pool (with or without an initial keyspace) by ANY event sequence
+satisfies the invariant of `Proofs/Keyspace.lean`. -/
+theorem reachable_inv (perShard : Bool) (target : Nat) (ks0 : Option K) (evs : List (Ev K)) :
+    Inv (run (Pool.init perShard target ks0) evs) :=
+  inv_run (inv_init perShard target ks0) evs
+
+private theorem results_of_resp {p : Pool K} (h : Inv p) (t : Keyspace.Task K) (ht : t ∈ p.tasks)
+    (hr : t.resp = some .ok ∨ t.resp = some (.err .broken)) (i : Nat) (hi : i ∈ t.snapshot)
+    (hb : (p.net i).broken = false) : t.results.lookup i = some (.ok ()) := by
+  have hresp : ∃ o, t.resp = some o ∧ (o = .ok ∨ o = .err .broken) := by
+    rcases hr with h1 | h1
+    · exact ⟨_, h1, Or.inl rfl⟩
+    · exact ⟨_, h1, Or.inr rfl⟩
+  obtain ⟨o, ho, hoo⟩ := hresp
+  rcases h.resp t ht o ho with ⟨hnil, _⟩ | h2 | ⟨hdone, hres⟩
+  · rw [hnil] at hi; cases hi
+  · subst h2; rcases hoo with h3 | h3 <;> cases h3
+  · unfold Task.allDone at hdone
+    have hsome := List.all_eq_true.mp hdone i hi
+    obtain ⟨r, hr'⟩ := Option.isSome_iff_exists.mp hsome
+    have hmem : r ∈ t.resultList := by
+      unfold Task.resultList
+      exact List.mem_filterMap.mpr ⟨i, hi, hr'⟩
+    have hcase : r = .ok () ∨ r = .error .broken := by
+      rcases hoo with h3 | h3
+      · subst h3; exact ((useKeyspaceResult_ok_iff _).mp hres.symm).1 r hmem
+      · subst h3; exact Or.inr (((useKeyspaceResult_broken_iff _).mp hres.symm).1 r hmem)
+    rcases hcase with h4 | h4
+    · rw [hr', h4]
+    · rw [h4] at hr'
+      have := h.res_broken t ht i hr'
+      rw [hb] at this; cases this
+
+/-- **published_has_keyspace**.  In every reachable state in which no two use-keyspace requests overlapped
+(the documented usage: "call only one `use_keyspace` at a time"), once the newest request `L` has been
+answered Ok — or with a broken-connection error, which the node-level fan-out tolerates — every published
+connection that is not broken has keyspace `L.ks` set at the server, and that is the pool's current keyspace.
+Since this holds in every later state too (until the next request arrives), it covers every later request,
+connections opened afterwards or concurrently included: they are not published before. -/
+theorem published_has_keyspace (perShard : Bool) (target : Nat) (ks0 : Option K) (evs : List (Ev K)) :
+    let p := run (Pool.init perShard target ks0) evs
+    p.overlap = false → ∀ L, p.latest = some L → (L.resp = some .ok ∨ L.resp = some (.err .broken)) →
+      p.currentKs = some L.ks ∧
+      ∀ i ∈ p.conns, (p.net i).broken = false → (p.net i).serverKs = some L.ks := by
+  intro p hov L hL hresp
+  have h : Inv p := reachable_inv perShard target ks0 evs
+  have hs := h.strong hov
+  unfold Strong at hs
+  unfold Pool.latest at hL
+  cases htasks : p.tasks with
+  | nil => rw [htasks] at hL; cases hL
+  | cons L' rest =>
+    rw [htasks] at hL hs
+    simp only [List.head?_cons, Option.some.injEq] at hL
+    subst hL
+    refine ⟨hs.1, fun i hi hb => ?_⟩
+    have := hs.2.2 i hi hb
+    by_cases hsn : i ∈ L'.snapshot
+    · exact this.1 hsn (results_of_resp h L' (by rw [htasks]; exact List.mem_cons_self) hresp i hsn hb)
+    · exact this.2 hsn
+
+/-- Before any use-keyspace request (a pool created with the session's keyspace, e.g. for a newly
+discovered node): every published live connection has the pool's initial keyspace. -/
+theorem published_has_initial_keyspace (perShard : Bool) (target : Nat) (ks0 : Option K) (evs : List (Ev K)) :
+    let p := run (Pool.init perShard target ks0) evs
+    p.overlap = false → p.tasks = [] →
+      ∀ i ∈ p.conns, (p.net i).broken = false → (p.net i).serverKs = p.currentKs := by
+  intro p hov ht
+  have hs := (reachable_inv perShard target ks0 evs).strong hov
+  unfold Strong at hs
+  rw [ht] at hs
+  exact hs
+
+/-- **success_means_all_acked** (no discipline assumed, overlapping requests included): when ANY
+use-keyspace request has been answered Ok, every connection that was published when the request arrived
+and is not broken has acknowledged `USE` of that keyspace. -/
+theorem success_means_all_acked (perShard : Bool) (target : Nat) (ks0 : Option K) (evs : List (Ev K)) :
+    let p := run (Pool.init perShard target ks0) evs
+    ∀ t ∈ p.tasks, t.resp = some .ok → ∀ i ∈ t.snapshot, (p.net i).broken = false →
+      t.ks ∈ (p.net i).acked := by
+  intro p t ht hr i hi hb
+  have h : Inv p := reachable_inv perShard target ks0 evs
+  exact h.res_ok t ht i (results_of_resp h t ht (Or.inl hr) i hi hb)
+
+/-- An Ok answer is never given while a result is missing or is an error other than a broken connection;
+a broken-connection result is only recorded for a connection that IS broken (it is leaving the pool). -/
+theorem ok_answer_sound (perShard : Bool) (target : Nat) (ks0 : Option K) (evs : List (Ev K)) :
+    let p := run (Pool.init perShard target ks0) evs
+    ∀ t ∈ p.tasks, t.resp = some .ok → ∀ i ∈ t.snapshot,
+      t.results.lookup i = some (.ok ()) ∨
+      (t.results.lookup i = some (.error .broken) ∧ (p.net i).broken = true) := by
+  intro p t ht hr i hi
+  have h : Inv p := reachable_inv perShard target ks0 evs
+  cases hb : (p.net i).broken with
+  | false => exact Or.inl (results_of_resp h t ht (Or.inl hr) i hi hb)
+  | true =>
+    rcases h.resp t ht _ hr with ⟨hnil, _⟩ | h2 | ⟨hdone, hres⟩
+    · rw [hnil] at hi; cases hi
+    · cases h2
+    · unfold Task.allDone at hdone
+      obtain ⟨r, hr'⟩ := Option.isSome_iff_exists.mp (List.all_eq_true.mp hdone i hi)
+      have hmem : r ∈ t.resultList := List.mem_filterMap.mpr ⟨i, hi, hr'⟩
+      rcases ((useKeyspaceResult_ok_iff _).mp hres.symm).1 r hmem with h4 | h4
+      · exact Or.inl (by rw [hr', h4])
+      · exact Or.inr ⟨by rw [hr', h4], rfl⟩
+
+/-- **new_connection_private**: a setting-keyspace future and the published list
+are disjoint, and a connection in `setting` is in no task's snapshot: a new connection is private until the
+server has acknowledged the current keyspace on it. -/
+theorem new_connection_private (perShard : Bool) (target : Nat) (ks0 : Option K) (evs : List (Ev K)) :
+    let p := run (Pool.init perShard target ks0) evs
+    ∀ e ∈ p.setting, e.1 ∉ p.conns ∧ (∀ t ∈ p.tasks, e.1 ∉ t.snapshot) ∧ p.currentKs ≠ none := by
+  intro p e he
+  have h : Inv p := reachable_inv perShard target ks0 evs
+  exact ⟨(h.priv e he).1, (h.priv e he).2, h.setting_cur e he⟩
+
+/-- **publish_only_with_current_keyspace** — whatever the event and whatever happened before: a connection
+that enters the published list in a step has, at that moment, exactly the pool's current keyspace set at the
+server (`none` = no keyspace was ever requested). Opened connections without it go through `setting`. -/
+theorem publish_only_with_current_keyspace (perShard : Bool) (target : Nat) (ks0 : Option K)
+    (evs : List (Ev K)) (e : Ev K) :
+    let p := run (Pool.init perShard target ks0) evs
+    ∀ j ∈ (step p e).conns, j ∉ p.conns → ((step p e).net j).serverKs = (step p e).currentKs := by
+  intro p j hj hn
+  exact publish_step (reachable_inv perShard target ks0 evs) e j hj hn
+
+/-! non-vacuity: a use-keyspace request races with a refill. The connection opened meanwhile (id 1) is held in
+`setting` until the server acknowledged the keyspace, and only then published. -/
+private def evsA : List (Ev Nat) :=
+  [.refill, .opened 0 none false, .refill, .useKs 7, .opened 0 none false, .taskUse 0 0 .ack, .taskFinish 0,
+   .ksSet 1 .ack]
+
+example : let p := run (Pool.init false 2 (none : Option Nat)) evsA
+    p.overlap = false ∧ (p.latest.map (·.resp)) = some (some .ok) ∧ p.conns = [0, 1] ∧
+    (p.net 0).serverKs = some 7 ∧ (p.net 1).serverKs = some 7 ∧ (p.net 1).acked = [7] := by decide
+
+example : let p := run (Pool.init false 2 (none : Option Nat)) evsA.dropLast
+    (p.latest.map (·.resp)) = some (some .ok) ∧ p.conns = [0] ∧ p.setting = [(1, 7, false)] ∧
+    (p.net 1).serverKs = none := by decide
+
+/-- connection 0 breaks while the `USE` is on it, the other acknowledges: Ok, and the broken one leaves -/
+private def evsBreak : List (Ev Nat) :=
+  [.refill, .opened 0 none false, .refill, .opened 0 none false, .useKs 3, .breakConn 0, .taskUse 0 0 .ack,
+   .taskUse 0 1 .ack, .taskFinish 0, .connError 0]
+example : let p := run (Pool.init false 2 (none : Option Nat)) evsBreak
+    (p.latest.map (·.resp)) = some (some .ok) ∧ p.conns = [1] ∧ (p.net 1).serverKs = some 3 := by decide
+
+/-- The hypothesis `overlap = false` is needed (and is what the documentation of `Session::use_keyspace` asks
+for): two overlapping requests, both answered Ok, can leave a live published connection in the OTHER keyspace. -/
+private def evsOverlap : List (Ev Nat) :=
+  [.refill, .opened 0 none false, .useKs 1, .useKs 2, .taskUse 1 0 .ack, .taskUse 0 0 .ack, .taskFinish 0,
+   .taskFinish 1]
+example : let p := run (Pool.init false 1 (none : Option Nat)) evsOverlap
+    p.overlap = true ∧ p.tasks.map (·.resp) = [some .ok, some .ok] ∧ p.currentKs = some 2 ∧ p.conns = [0] ∧
+    (p.net 0).broken = false ∧ (p.net 0).serverKs = some 1 := by decide
+
+/-- A request whose `USE` the server rejects on one connection is answered with the error, and that
+connection stays published in its old keyspace (a failed call may leave the pool mixed - as documented). -/
+private def evsReject : List (Ev Nat) :=
+  [.refill, .opened 0 none false, .ksSet 0 .ack, .refill, .opened 0 none false, .ksSet 1 .ack,
+   .useKs 2, .taskUse 0 0 .ack, .taskUse 0 1 .dbError, .taskFinish 0]
+example : let p := run (Pool.init false 2 (some 1 : Option Nat)) evsReject
+    (p.latest.map (·.resp)) = some (some (.err .dbError)) ∧ p.conns = [0, 1] ∧
+    (p.net 0).serverKs = some 2 ∧ (p.net 1).serverKs = some 1 := by decide
+
+/-! ## D. The cluster worker: use-keyspace requests, their fan-out over the known nodes, deliveries to the
+nodes' refillers in any order, every pool event of every node, node addition and removal -/
+
+theorem cluster_reachable_inv (perShard : Bool) (target : Nat) (evs : List (CEv K)) :
+    CInv (crun (Cluster.init perShard target : Cluster K) evs) :=
+  cinv_run (cinv_init perShard target) evs
+
+/-- Every node's pool, in every reachable cluster state, satisfies the pool invariant: the theorems of §C
+hold for each node (a pool only ever moves by `step`). -/
+theorem cluster_pools_inv (perShard : Bool) (target : Nat) (evs : List (CEv K)) (n : Nat) :
+    Inv ((crun (Cluster.init perShard target : Cluster K) evs).pools n) :=
+  (cluster_reachable_inv perShard target evs).pools n
+
+/-- **new_nodes_inherit**: `node_config.used_keyspace` is the keyspace of the newest request the worker has
+handled, and a node created by a metadata application gets a pool whose current keyspace is that one, with no
+request pending: by `publish_only_with_current_keyspace` / `published_has_initial_keyspace` it never publishes
+a connection without it. -/
+theorem new_nodes_inherit (perShard : Bool) (target : Nat) (evs : List (CEv K)) (ps : Bool) (tg : Nat) :
+    let c := crun (Cluster.init perShard target : Cluster K) evs
+    let c' := cstep c (.addNode ps tg)
+    c.usedKs = c.fanouts.head?.map (·.ks) ∧ c'.known = c.known ++ [c.nNodes] ∧
+    c'.pools c.nNodes = Pool.init ps tg c.usedKs ∧ (c'.pools c.nNodes).currentKs = c.usedKs ∧
+    (c'.pools c.nNodes).tasks = [] := by
+  intro c c'
+  refine ⟨(cluster_reachable_inv perShard target evs).used, rfl, ?_, ?_, ?_⟩ <;>
+    simp [c', cstep, setPool, Pool.init]
+
+/-- **cluster_success_means_all_acked** (no discipline assumed): when a `Session::use_keyspace(k)` fan-out has
+been answered Ok, every node that was known when the worker handled the request has a pool task for `k` that
+answered Ok (or with a broken-connection error: then every connection of that pool was broken), and every
+connection that was published in that pool when the request reached it and is not broken has acknowledged
+`USE k`. -/
+theorem cluster_success_means_all_acked (perShard : Bool) (target : Nat) (evs : List (CEv K)) :
+    let c := crun (Cluster.init perShard target : Cluster K) evs
+    ∀ f ∈ c.fanouts, f.resp = some .ok → ∀ n ∈ f.nodes,
+      ∃ t ∈ (c.pools n).tasks, t.ks = f.ks ∧ (t.resp = some .ok ∨ t.resp = some (.err .broken)) ∧
+        ∀ i ∈ t.snapshot, ((c.pools n).net i).broken = false → f.ks ∈ ((c.pools n).net i).acked := by
+  intro c f hf hr n hn
+  have hc := cluster_reachable_inv perShard target evs
+  obtain ⟨t, ht, hks, hresp⟩ := hc.fan f hf hr n hn
+  refine ⟨t, ht, hks, hresp, fun i hi hb => ?_⟩
+  rw [← hks]
+  exact (hc.pools n).res_ok t ht i (results_of_resp (hc.pools n) t ht hresp i hi hb)
+
+/-
+Full cluster-level statement, NOT proved (kept for the record; the per-pool form `published_has_keyspace`,
+`new_nodes_inherit` and `cluster_success_means_all_acked` are its proved parts):
+
+  cluster_published_has_keyspace : c reachable → c.overlap = false → the newest fan-out F answered Ok →
+    ∀ n ∈ c.known, ∀ i ∈ (c.pools n).conns, ¬ broken → ((c.pools n).net i).serverKs = some F.ks
+
+What is missing is the link "no two fan-outs overlap ⇒ no two pool requests overlap in any pool, and the
+newest task of every known pool belongs to F (or the pool was created after F with F.ks)".
+-/
+
+private def cevs : List (CEv Nat) :=
+  [.addNode false 1, .pool 0 .refill, .pool 0 (.opened 0 none false), .useKs 5, .addNode false 1,
+   .deliver 0 0, .pool 0 (.taskUse 0 0 .ack), .pool 0 (.taskFinish 0), .fanoutFinish 0,
+   .pool 1 .refill, .pool 1 (.opened 0 none false), .pool 1 (.ksSet 0 .ack)]
+
+example : let c := crun (Cluster.init false 1 : Cluster Nat) cevs
+    c.fanouts.map (·.resp) = [some .ok] ∧ c.known = [0, 1] ∧ (c.pools 1).currentKs = some 5 ∧
+    (c.pools 0).conns = [0] ∧ ((c.pools 0).net 0).serverKs = some 5 ∧
+    (c.pools 1).conns = [0] ∧ ((c.pools 1).net 0).serverKs = some 5 := by decide
 
 end ScyllaVerif.Props.C20
